@@ -161,6 +161,25 @@ class Ctx:
             self.violations.append({
                 'clause': clause, 'key': key, 'case': jsonable(case),
                 'detail': jsonable(detail)})
+            self._write_partial()
+
+    def _write_partial(self):
+        """A shard that has seen a violation leaves what it has so far next to its (future) result
+        file: if the code under test then hangs or crashes the interpreter, the parent still reports
+        the violation instead of an inconclusive time-out."""
+        path = getattr(self, 'partial_path', None)
+        n = len(self.violations)
+        if path is None or n & (n - 1):       # at the 1st, 2nd, 4th, 8th ... violation
+            return
+        try:
+            res = self.result()
+            res['partial'] = True
+            tmp = path + '.tmp'
+            with open(tmp, 'w') as f:
+                json.dump(res, f)
+            os.replace(tmp, path)
+        except Exception:
+            pass
 
     def check(self, clause, ok, key, case, detail=None):
         self.counters[clause] += 1
@@ -267,6 +286,7 @@ def shard_main(argv):
     assert_repo()
     mod = load_prop(pid)
     ctx = Ctx(pid, tier, seed, shard, nsh)
+    ctx.partial_path = out + '.partial'
     limit = mod.TIMEOUT[tier]
     faulthandler.dump_traceback_later(max(limit - 5, 5), exit=False)
     cover = start_cover(mod)
@@ -297,11 +317,32 @@ def run_shards(pid, tier, seed, mod):
     limit = mod.TIMEOUT[tier]
     env = dict(os.environ)
     results, problems = {}, []
+    known_keys = {k['key'] for k in load_known() if k['property'] == pid and k['status'] == 'known'}
+    t_start = time.time()
+    stop = {'at': None}      # once a violation has been reported: when to stop waiting for the rest
+
+    def has_new(res):
+        return any(v['key'] not in known_keys for v in res.get('violations', ()))
+
+    def note_violation():
+        # the verdict is settled; the other shards only add examples.  Give them as long again as
+        # the run has taken so far (at least 20 s), then stop them - code that is broken enough to
+        # violate the property may also make a workload crawl or hang.
+        if stop['at'] is None:
+            stop['at'] = time.time() + max(20.0, time.time() - t_start)
+
+    def partial_of(out):
+        try:
+            with open(out + '.partial') as f:
+                return json.load(f)
+        except (OSError, ValueError):
+            return None
 
     def launch(i):
         out = os.path.join(wdir, f'shard-{i}.json')
-        if os.path.exists(out):
-            os.remove(out)
+        for pth in (out, out + '.partial'):
+            if os.path.exists(pth):
+                os.remove(pth)
         log = open(os.path.join(wdir, f'shard-{i}.log'), 'w')
         p = subprocess.Popen(
             [sys.executable, '-B', '-m', 'vmon.core', '--shard-run',
@@ -317,9 +358,17 @@ def run_shards(pid, tier, seed, mod):
                 i = pending.pop(0)
                 running[i] = launch(i)
             time.sleep(0.02)
+            if stop['at'] is None and any(os.path.exists(out + '.partial') for p, out, t0, log in running.values()):
+                for p, out, t0, log in running.values():
+                    part = partial_of(out)
+                    if part and has_new(part):
+                        note_violation()
+            stopping = stop['at'] is not None and time.time() > stop['at']
+            if stopping:
+                pending.clear()
             for i, (p, out, t0, log) in list(running.items()):
                 rc = p.poll()
-                timed_out = rc is None and time.time() - t0 > limit
+                timed_out = rc is None and (time.time() - t0 > limit or stopping)
                 if rc is None and not timed_out:
                     continue
                 if timed_out:
@@ -330,6 +379,18 @@ def run_shards(pid, tier, seed, mod):
                 if os.path.exists(out) and not timed_out:
                     with open(out) as f:
                         results[i] = json.load(f)
+                    if has_new(results[i]):
+                        note_violation()
+                elif partial_of(out) is not None:
+                    # it reported violations and then hung, was stopped or died: keep what it reported
+                    results[i] = partial_of(out)
+                    why = ('stopped after another shard settled the verdict' if stopping else
+                           'watchdog timeout' if timed_out else f'died rc={rc}')
+                    problems.append(f'shard {i}: {why} after reporting {len(results[i]["violations"])} violation(s)')
+                    if has_new(results[i]):
+                        note_violation()
+                elif stopping:
+                    problems.append(f'shard {i}: stopped after another shard settled the verdict')
                 elif final:
                     why = 'watchdog timeout' if timed_out else f'died rc={rc}'
                     problems.append(
@@ -339,7 +400,7 @@ def run_shards(pid, tier, seed, mod):
         return failed
 
     failed = drive(range(n), getattr(mod, 'MAXPAR', NCPU), final=False)
-    if failed:
+    if failed and stop['at'] is None:
         # Retry once, one at a time (DESIGN 2.6).
         drive(failed, 1, final=True)
     if not problems and len(results) == n:
